@@ -104,6 +104,7 @@ def run_one(check, seed, index, tier, workdir, scenario=None):
     simproc.scrub_env()
     simproc.install_simhash(scenario.get("hash_salt", 0))
     simproc.install_locale(scenario)
+    simproc.install_salted_sets(scenario)
     faulthandler.dump_traceback_later(RUN_TIMEOUT, exit=True)
     try:
         check.execute(scenario, ctx)
